@@ -147,6 +147,17 @@ def replay(prop, path):
     doc = json.load(open(path))
     sc = doc["scenario"]
     vlib.build_harness()
+    if str(sc.get("id", "")).startswith("v1c-replay"):
+        # a history of the v1 ack chain: replay it on the real nodes, compare with the stored expectation
+        h = doc["violation"]["what"]["history"]
+        tr = vlib.run_harness("v1chain", [sc], name="replay")[0]
+        e = next(x for x in tr if x["ev"] in ("CaseResult", "CasePanic"))
+        same = e["ev"] == "CaseResult" and not e["hung"] and (e["src_acks"] or []) == h["srcAcks"] and (e["dlq"] or []) == h["dlq"]
+        print("re-executed: the ack chain %s the specification's expectation" % ("matches" if same else "deviates from"))
+        if not same:
+            print("VIOLATION property=%s replay=%s" % (prop, path))
+            return 1
+        return 0
     if doc["violation"]["invariant"] == "ArbiterConforms":
         # a voting history of the v2 fan-out arbiter: replay it on the real type, compare with the stored expectation
         w = doc["violation"]["what"]
